@@ -24,7 +24,12 @@ TNext == /\ l < Len(Ev) /\ l' = l + 1 /\ tid' = tid
               \/ e.a = "open" /\ OpenFile(e.h)
               \/ e.a = "fclose" /\ CloseFile(e.h)
               \/ e.a = "close" /\ Close
+              \* an exception escaping the call is a behaviour only for an application whose error handler re-raises
+              \/ e.a = "escaped" /\ Traces[tid].reraise /\ UNCHANGED pvars
 TSpec == TInit /\ [][TNext]_tvars
 Accept == (l = Len(Ev) /\ phase = "closed") => PrintT(<<"ACCEPT", Traces[tid].tid>>)
+\* traces recorded inside the repository's own test-suite: werkzeug's test client closes the iterable lazily (or
+\* never), so only "every event is a legal step" is required of them
+AcceptPrefix == (l = Len(Ev)) => PrintT(<<"ACCEPT", Traces[tid].tid>>)
 At == PrintT(<<"AT", Traces[tid].tid, l>>)
 =============================================================================
